@@ -113,7 +113,7 @@ pub fn gen_fixtures_main(args: &[String]) -> i32 {
         let fx: Vec<Fixture> = crate::on_curve!(cu, G => gen_curve::<G>(cu));
         std::fs::write(dir.join(format!("c18_{}.json", cu)), serde_json::to_string_pretty(&fx).unwrap()).unwrap();
         println!("{}: {} fixtures", cu, fx.len());
-        for (cap, parties) in [(16usize, 1usize), (64, 2), (128, 1)] {
+        for (cap, parties) in [(16usize, 1usize), (64, 2), (128, 1), (600, 1), (300, 2)] {
             let d = crate::on_curve!(cu, G => ref_digest::<G>(cap, parties));
             digests.insert(format!("{}:{}x{}", cu, cap, parties), json!(d));
         }
@@ -198,7 +198,7 @@ fn run_case<G: AffineRepr + RefRun>(env: &Env<G>, fixtures: &[Fixture], c: &Case
         Case::Digests { curve } => {
             o.evals = 0;
             let pinned: Value = std::fs::read_to_string(verif_dir().join("fixtures").join("generator_digests.json")).ok().and_then(|s| serde_json::from_str(&s).ok()).unwrap_or(json!({}));
-            for (cap, parties) in [(16usize, 1usize), (64, 2), (128, 1)] {
+            for (cap, parties) in [(16usize, 1usize), (64, 2), (128, 1), (600, 1), (300, 2)] {
                 o.evals += 1;
                 o.count("comparisons", 1);
                 o.count("programs", 1);
